@@ -2,7 +2,7 @@
 
 Translated (struct-pointer parameter `mjPreContact* con`: fields appear as con0_dist, con0_normal_k, con0_pos_k,
 con0_tangent_k results, and as inputs where a path leaves them unwritten):
-  mjraw_SphereSphere, mjraw_PlaneSphere, mjraw_SphereCapsule (inlines mjraw_SphereSphere and mju_clip),
+  mjraw_SphereSphere, mjraw_PlaneSphere, mjraw_SphereCapsule (inlines mjraw_SphereSphere, calls mju_clip),
   mju_clampVec specialised to n = 3 (closest point of a box in its local frame: the core of mjraw_SphereBox).
 mju_makeFrame is in the shared list translate/kernels.py.
 
@@ -15,6 +15,9 @@ Tried and refused by c2lean (covered by the engine oracle of checks/c13.py inste
 PRIM = "src/engine/engine_collision_primitive.c"
 BOX = "src/engine/engine_collision_box.c"
 KERNELS = [
+    # mju_clip is listed here too (another list may or may not have it): the generated colliders must *call* it
+    # rather than inline it, whatever the other lists contain, so that the proofs see a stable shape
+    {"name": "mju_clip", "file": "src/engine/engine_util_misc.c"},
     {"name": "mjraw_SphereSphere", "file": PRIM, "static": True},
     {"name": "mjraw_PlaneSphere", "file": PRIM, "static": True},
     {"name": "mjraw_SphereCapsule", "file": PRIM, "static": True},
